@@ -2,6 +2,7 @@ package sim
 
 import (
 	"bytes"
+	"errors"
 	"fmt"
 	"net"
 	"time"
@@ -85,6 +86,7 @@ func init() {
 	// snapshot cross-checks
 	RegisterKind("snap-alloc-missing", "C06", "C04")
 	RegisterKind("snap-alloc-ghost", "C06", "C04", "C03", "C15")
+	RegisterKind("event-after-allocation-deleted", "C06", "C15")
 	RegisterKind("snap-alloc-mismatch", "C04", "C19")
 	RegisterKind("snap-perm-missing", "C07", "C04")
 	RegisterKind("snap-perm-ghost", "C07", "C01", "C04", "C06")
@@ -146,6 +148,28 @@ func (m *Model) do(c *RawClient, method uint16, build func(b *wire.Builder)) (*w
 			c.AddAuth(b)
 		}
 		m.track(c, tid, method)
+		if m.LoseNextResponse && !c.IsTCP && c.Nonce != "" && method != wire.MethodAllocate && c.Listener < len(m.W.ServerUDP) {
+			// the server's socket fails to send its answer to this request (ENOBUFS, say): the
+			// request has been carried out, the client retransmits it and is answered then
+			m.LoseNextResponse = false
+			sock := m.W.ServerUDP[c.Listener]
+			failed := false
+			sock.SetWriteHook(func(p []byte, _ net.Addr) (int, error, bool) {
+				if msg, err := wire.ParseSTUN(p); err == nil && msg.TID == tid && !failed {
+					failed = true
+
+					return 0, errors.New("injected: no buffer space available"), true
+				}
+
+				return 0, nil, false
+			})
+			first := c.Exchange(b.Bytes(), tid)
+			sock.SetWriteHook(nil)
+			if first == nil && failed {
+				m.Retransmitted(c, tid)
+				m.Rec.FP("response-lost-at-the-server-socket/m%x", method)
+			}
+		}
 		resp := c.Exchange(b.Bytes(), tid)
 		if c.IsTCP && resp != nil {
 			m.checkResponse(resp, c, c.Addr.String())
@@ -330,6 +354,9 @@ func (m *Model) Refresh(c *RawClient, lifetime *uint32) *wire.Msg {
 	c.RefreshFamily = 0
 	if a == nil {
 		famOpt = 0
+	}
+	if lifetime != nil && *lifetime == 0 {
+		m.LoseNextResponse = false // (a deletion is not repeatable: its retransmission finds nothing)
 	}
 	resp, _ := m.do(c, wire.MethodRefresh, func(b *wire.Builder) {
 		if lifetime != nil {
